@@ -396,6 +396,39 @@ def claimNamesCollide (c n : Names) : Prop :=
 def shape (t : List (String × Schema)) : List (String × String × List String × List String) :=
   t.map fun (k, s) => (k, s.type, s.required, keys s.props)
 
+/-! ### the reconcile step that WRITES a derived CRD (definition / offered reconciler)
+
+`r.client.Apply(ctx, crd, MustBeControllableBy(uid))` with the reconcilers' own
+`NewClientApplicator` = `resource.NewAPIUpdatingApplicator`: Get, then Create if there is
+no CRD, else Update of the rendered object carrying the stored resourceVersion. An Update
+REPLACES labels, annotations, owner references and spec (the status subresource is kept by
+the server). `stored` is the XRD's own CRD as an earlier reconcile left it. -/
+
+/-- the API server's Update of the main resource: the submitted object replaces the stored one -/
+def serverUpdate (_stored desired : Crd) : Crd := desired
+
+/-- what an RFC 7386 merge patch of the rendered object would leave instead (NOT what the code
+does; kept to show that `reconcile_stores_derived` distinguishes the two): absent optional
+fields keep the stored value, maps are merged, lists replaced -/
+def serverMergePatch (stored desired : Crd) : Crd :=
+  { desired with
+    labels := setAll stored.labels desired.labels
+    annotations := setAll stored.annotations desired.annotations
+    conversion := match desired.conversion with | some c => some c | none => stored.conversion
+    names := { desired.names with
+      singular := if desired.names.singular = "" then stored.names.singular else desired.names.singular
+      listKind := if desired.names.listKind = "" then stored.names.listKind else desired.names.listKind
+      shortNames := if desired.names.shortNames = [] then stored.names.shortNames else desired.names.shortNames } }
+
+/-- one successful pass of the definition (`.xr`) / offered (`.claim`) reconciler over the CRD -/
+def reconcileStep (w : Which) (xrd : Xrd) (stored : Option Crd) : Except Err Crd :=
+  match derive w xrd with
+  | .error e => .error e
+  | .ok d =>
+    match stored with
+    | none => .ok d
+    | some s => .ok (serverUpdate s d)
+
 /-! ### example input used by the non-vacuity examples of Props/C11 -/
 
 /-- an author schema that tries to shadow machinery: `spec.claimRef` and `status.conditions` as strings -/
